@@ -88,7 +88,10 @@ Record spec_wf : Prop := {
       afind (p_strands p) n = Some (items, l, d) /\ (forall it, In it items -> item_ok (List.length (p_sups p)) it) /\ l = refs_total items;
   wf_sup_idx : forall j n items l, nth_error (p_sups p) j = Some (n, (items, l)) -> sup_index p n = Some j;
   wf_struct : so = true -> forall sn v, In (sn, v) (p_structs p) -> afind (p_structs p) sn = Some v;
-  wf_placed : so = true -> forall n v, In (n, v) (p_strands p) -> first_inst_in p (p_structs p) n <> None }.
+  wf_placed : so = true -> forall n v, In (n, v) (p_strands p) -> first_inst_in p (p_structs p) n <> None;
+  wf_base_idx : forall k n t, nth_error (p_bases p) k = Some (n, t) -> base_index p n = Some k;
+  wf_disjoint : forall n, base_index p n <> None -> sup_index p n = None;
+  wf_struct_len : so = true -> forall sn names s len, In (sn, (names, s, len)) (p_structs p) -> len = DGraph.total p names }.
 Hypothesis WF : spec_wf.
 
 (* ---- the table of flattenings ---- *)
@@ -269,7 +272,7 @@ Proof. intros OK B HT H. apply (item_links_In bound items OK 0 target a b) in H.
 
 
 (* ---- positions of structures (structure layout) ---- *)
-Definition total (names : list string) : nat := fold_right (fun n a => strand_len p n + a) 0 names.
+Local Notation total := (DGraph.total p).
 Lemma walk_sym_at pre n post x : x < strand_len p n -> walk_sym p (pre ++ n :: post) (total pre + x) = Some (n, x).
 Proof. intros H. induction pre as [|m pre IH]; simpl.
   - destruct (Nat.leb_spec (strand_len p n) x); [lia | reflexivity].
